@@ -372,6 +372,7 @@ def run_sim(ctx):
 def run(ctx):
     ok = ctx.build()
     run_sim(ctx)
+    run_real(ctx)
     ctx.cov["rule"] = ("reload schedules for the real Arbiter.run() on the simulated kernel (timeout = 0): after the boot, <= 6 events {HUP (optionally "
                        "after editing workers / the bind address), exit of a told worker, SIGCHLD, death of any worker} between master steps, then a "
                        "fair tail; fixed corpus: every resize, HUP bursts beyond the queue bound, a told worker's exit at every point of a reload, "
@@ -379,6 +380,12 @@ def run(ctx):
 
 
 def replay(rep):
+    if rep.get("kind") == "real":
+        fails, tr = reload_scenario(*rep["scenario"])
+        for t in tr:
+            print(t)
+        print("failures:", fails)
+        return 1 if fails else 0
     case = dict(rep["case"])
     case["script"] = [tuple(x) for x in case.pop("schedule")]
     w = run_case(case)
@@ -386,3 +393,146 @@ def replay(rep):
     fs = judge(case, w)
     print("oracle failures:", fs)
     return 1 if fs else 0
+
+
+# =====================================================================================================================
+# REAL processes: one master under client load through one or several HUPs
+# =====================================================================================================================
+import lib_arb2_real as R
+
+LATE = 1.0
+
+
+def reload_scenario(cls, phase, hups=1, bind="unix", new_workers=3, d=1.6):
+    """-> (failures, trace).  failures starting with KNOWN:<key> are reported under that key"""
+    fails, tr = [], []
+    srv = R.Server(worker_class=cls, workers=2, graceful=6, bind=bind, marker="m0", keepalive=8)
+    load = None
+    try:
+        srv.start()
+        master = srv.master
+        old = set(srv.children())
+        tr.append(("old workers", sorted(old)))
+        load = R.Load(srv, period=0.04, d=0.03)
+        load.start()
+        time.sleep(0.3)
+        # one connection held in the chosen phase
+        c = R.Client(srv, timeout=30).connect()
+        later = None
+        if phase == "idle":
+            later = R.Client.request(d=0)
+        elif phase == "head":
+            req = R.Client.request(d=0)
+            c.send(req[:-2])
+            later = req[-2:]
+        elif phase == "app":
+            c.send(R.Client.request(d=d))
+        elif phase == "resp":
+            c.send(R.Client.request(w=d))
+            c.read_until(lambda b: b"marker=" in b, time.time() + 10)
+        elif phase == "keep":
+            c.send(R.Client.request(d=0, keepalive=True))
+            c.read_response(10)
+            c.buf = b""
+            later = R.Client.request(d=0)
+        time.sleep(0.3)
+        marker = "m0"
+        for h in range(hups):
+            marker = "m%d" % (h + 1)
+            srv.write_conf(workers=new_workers if h == hups - 1 else 2, raw_env=["GV_MARKER=%s" % marker])
+            srv.signal(_signal.SIGHUP, master)
+            tr.append(("hup", h + 1, marker))
+            if h < hups - 1:
+                time.sleep(0.35)
+        if later is not None:
+            time.sleep(LATE)
+            c.send(later)
+        held = c.read_all(15) if phase in ("idle", "keep") and cls != "sync" else c.read_response(15)
+        tr.append(("held connection", phase, {"status": held["status"], "complete": held["complete"], "pid": held["pid"], "marker": held["marker"]}, c.err))
+        c.close()
+        # convergence: only workers started after the (last) HUP, in the new number
+        def converged():
+            ch = set(srv.children())
+            return ch if (len(ch) == new_workers and not (ch & old)) else None
+        new = R.wait_for(converged, 20)
+        tr.append(("workers afterwards", sorted(srv.children())))
+        if not R.pid_alive(master):
+            fails.append("the master died during the reload")
+        if not new:
+            ch = set(srv.children())
+            fails.append("after the reload the master has workers %r (old generation: %r); expected %d workers, none of them old" % (sorted(ch), sorted(old), new_workers))
+        time.sleep(0.5)
+        n_before = len(load.results)
+        time.sleep(0.6)
+        load.finish()
+        after = load.results[n_before:]
+        wrong = [r for r in after if r[1] and (r[5] != marker or (new and r[3] not in new))]
+        if wrong:
+            fails.append("after convergence %d of %d responses came from a worker of an old generation / with an old configuration (expected marker %s): %r"
+                         % (len(wrong), len(after), marker, wrong[:2]))
+        # the held request: answered in full by the old worker that accepted it
+        promised = phase in ("head", "app", "resp") or (phase == "idle" and cls == "sync")
+        done = held["status"] == 200 and held["complete"]
+        if promised and not done:
+            fails.append("the request held in phase %r across the reload was not answered in full: %r (client error %r)"
+                         % (phase, {"status": held["status"], "complete": held["complete"]}, c.err))
+        if promised and done and (held["pid"] not in old or held["marker"] != "m0"):
+            fails.append("the request held in phase %r was answered by pid %r / marker %r, not by the old worker that had it" % (phase, held["pid"], held["marker"]))
+        # the stream of short requests
+        errs = list(load.errors)
+        tr.append(("stream", len(load.results), "errors", len(errs)))
+        soft = [e for e in errs if cls != "sync" and ("ECONNRESET" in e[1] or "status None, 0 bytes" in e[1])]
+        hard = [e for e in errs if e not in soft]
+        if soft:
+            fails.append("KNOWN:%s %d connection(s) accepted by a %s worker that was then told to stop were reset before the request was read; first: %r"
+                         % (KEY_ACCEPTED, len(soft), cls, soft[0]))
+        if hard:
+            fails.append("%d of %d client exchanges failed during the reload; first: %r" % (len(hard), len(load.results) + len(errs), hard[0]))
+    except Exception as e:
+        fails.append("harness: %s: %s\n%s" % (type(e).__name__, e, srv.read_log()[-1000:]))
+    finally:
+        if load is not None and load.is_alive():
+            load.finish()
+        tr.append(("log-tail", srv.read_log()[-500:]))
+        srv.cleanup()
+    return fails, tr
+
+
+def run_real(ctx):
+    if ctx.quick():
+        scns = [("sync", "app", 1, "unix", 3), ("gthread", "head", 2, "tcp", 1), ("sync", "idle", 2, "unix", 2), ("gevent", "resp", 1, "unix", 3)]
+    else:
+        scns = []
+        for cls in ("sync", "gthread", "gevent", "eventlet"):
+            for ph in ("idle", "head", "app", "resp", "keep"):
+                for hups in (1, 2):
+                    scns.append((cls, ph, hups, "tcp" if len(scns) % 3 == 0 else "unix", [1, 3, 2][len(scns) % 3]))
+    results = [None] * len(scns)
+
+    def work(i):
+        results[i] = reload_scenario(*scns[i])
+    for k in range(0, len(scns), 4):
+        ths = [threading.Thread(target=work, args=(i,)) for i in range(k, min(k + 4, len(scns)))]
+        for t in ths:
+            t.start()
+        for t in ths:
+            t.join()
+    for i, r in enumerate(results):
+        if r is None or any(f.startswith("harness:") for f in r[0]):
+            results[i] = reload_scenario(*scns[i])
+    nf = 0
+    for scn, (fails, tr) in zip(scns, results):
+        ctx.count_case(("real",) + scn, nontrivial=True)
+        ctx.hist("real", "/".join(map(str, scn)))
+        for f in fails:
+            nf += 1
+            rep = {"kind": "real", "scenario": list(scn), "trace": [list(map(repr, t)) for t in tr]}
+            if f.startswith("harness:"):
+                ctx.broken.append("real-process run %r could not be carried out: %s" % (scn, f[:600]))
+            elif f.startswith("KNOWN:"):
+                key, text = f[6:].split(" ", 1)
+                ctx.violation("real master under load (%s): %s" % ("/".join(map(str, scn)), text), rep, key=key)
+            else:
+                ctx.violation("real master under load (%s): %s" % ("/".join(map(str, scn)), f), rep)
+    ctx.extra["real_runs"] = [{"scenario": "/".join(map(str, s)), "failures": r[0], "trace": [repr(t)[:240] for t in r[1][:-1]]} for s, r in zip(scns, results)]
+    ctx.log("ran %d real reloads under load; %d failures" % (len(scns), nf))
